@@ -462,27 +462,38 @@ func (a *AbsCtx) CertField(c *x509.Certificate) string {
 	return fmt.Sprintf("%s,%s,%s,%d,%s", hexStr(iss), hexStr(c.Subject.String()), natOfBig(c.SerialNumber), int(c.PublicKeyAlgorithm), aki)
 }
 
-// ChainField encodes the flattened chain list (verified chains in order, then trusted responder certificates).
-func (a *AbsCtx) ChainField(chains [][]*x509.Certificate, trusted []*x509.Certificate) string {
-	var es []string
-	add := func(c *x509.Certificate) {
-		subj, _ := rdnString(c.RawSubject)
-		iss, _ := rdnString(c.RawIssuer)
-		es = append(es, fmt.Sprintf("%d,%d,%s,%s,%s,%s,%d", a.CertID(c), a.KeyID(c), hexStr(subj), hexStr(iss),
-			natOfBig(c.SerialNumber), optHex(c.SubjectKeyId, len(c.SubjectKeyId) > 0), int(c.PublicKeyAlgorithm)))
-	}
+func (a *AbsCtx) chainEntry(c *x509.Certificate) string {
+	subj, _ := rdnString(c.RawSubject)
+	iss, _ := rdnString(c.RawIssuer)
+	return fmt.Sprintf("%d,%d,%s,%s,%s,%s,%d", a.CertID(c), a.KeyID(c), hexStr(subj), hexStr(iss),
+		natOfBig(c.SerialNumber), optHex(c.SubjectKeyId, len(c.SubjectKeyId) > 0), int(c.PublicKeyAlgorithm))
+}
+
+// ChainsField encodes the verified chains as presented (`<chains>`) and the trusted responder certificates (`<trusted>`).
+func (a *AbsCtx) ChainsField(chains [][]*x509.Certificate, trusted []*x509.Certificate) string {
+	var cs []string
 	for _, ch := range chains {
+		var es []string
 		for _, c := range ch {
-			add(c)
+			es = append(es, a.chainEntry(c))
+		}
+		if len(es) > 0 {
+			cs = append(cs, strings.Join(es, ";"))
 		}
 	}
+	cf := "-"
+	if len(cs) > 0 {
+		cf = strings.Join(cs, "|")
+	}
+	var ts []string
 	for _, c := range trusted {
-		add(c)
+		ts = append(ts, a.chainEntry(c))
 	}
-	if len(es) == 0 {
-		return "-"
+	tf := "-"
+	if len(ts) > 0 {
+		tf = strings.Join(ts, ";")
 	}
-	return strings.Join(es, ";")
+	return cf + " " + tf
 }
 
 func (a *AbsCtx) CandsField(cands []*x509.Certificate) string {
@@ -563,7 +574,9 @@ func (r *Responder) Set(path string, f func(keyHash string) RespScript) {
 	r.rules[path] = f
 }
 
-func (r *Responder) SetFixed(path string, s RespScript) { r.Set(path, func(string) RespScript { return s }) }
+func (r *Responder) SetFixed(path string, s RespScript) {
+	r.Set(path, func(string) RespScript { return s })
+}
 
 func (r *Responder) URL(path string) string { return r.srv.URL + path }
 
@@ -647,16 +660,20 @@ func sortedKeysInt(m map[string]int) []string {
 type OSrv struct {
 	URL        string
 	Path       string            // "" when requests to this URL cannot be observed (refused, TLS to a plain listener, other schemes)
-	Beh        map[string]string // issuerKeyHash hex → <beh> ; "*" default
+	Beh        map[string]string // "*" → default <beh>
+	PerCert    []OSrvRule        // behaviour for requests built for a particular candidate certificate (before the default)
 	Observable bool
 }
 
-func (s OSrv) field(a *AbsCtx, cands []*x509.Certificate) string {
+type OSrvRule struct {
+	Cert *x509.Certificate
+	Beh  string
+}
+
+func (s OSrv) field(a *AbsCtx) string {
 	var rules []string
-	for _, c := range cands {
-		if b, ok := s.Beh[issuerKeyHashHex(c)]; ok {
-			rules = append(rules, fmt.Sprintf("%d:%s", a.CertID(c), b))
-		}
+	for _, pc := range s.PerCert {
+		rules = append(rules, fmt.Sprintf("%d:%s", a.CertID(pc.Cert), pc.Beh))
 	}
 	if b, ok := s.Beh["*"]; ok {
 		rules = append(rules, "*:"+b)
@@ -679,10 +696,11 @@ type LookObs struct {
 }
 
 // observeLookup runs the real IsRevoked and canonicalises what can be seen of it.
-// cands: the issuer candidates in model order (used to translate logged key hashes to candidate indexes).
+// pool: every certificate that may be an issuer candidate (used to translate the issuerKeyHash of a logged request
+// to the model's key id).
 // defMs: the instance's default duration; nuMs: the nextUpdate (model ms) of the response expected to be stored, -1 if none.
 func observeLookup(a *AbsCtx, ch *ocspchk.OCSPRevocationChecker, rsp *Responder, leaf *x509.Certificate, chains [][]*x509.Certificate,
-	srvs []OSrv, cands []*x509.Certificate, defMs int64, nuMs int64) LookObs {
+	srvs []OSrv, pool []*x509.Certificate, defMs int64, nuMs int64) LookObs {
 	var o LookObs
 	before := map[string]int{}
 	for _, s := range srvs {
@@ -727,10 +745,10 @@ func observeLookup(a *AbsCtx, ch *ocspchk.OCSPRevocationChecker, rsp *Responder,
 			if counts[s.Path] <= before[s.Path] {
 				continue
 			}
-			ci := -1
-			for k, c := range cands {
+			ci := 0
+			for _, c := range pool {
 				if issuerKeyHashHex(c) == e.KeyHash {
-					ci = k
+					ci = a.KeyID(c)
 					break
 				}
 			}
@@ -760,10 +778,10 @@ func observeLookup(a *AbsCtx, ch *ocspchk.OCSPRevocationChecker, rsp *Responder,
 	return o
 }
 
-func (o LookObs) line(ncands int) string {
+func (o LookObs) line() string {
 	req := "-"
 	if len(o.Reqs) > 0 {
 		req = strings.Join(o.Reqs, ",")
 	}
-	return fmt.Sprintf("%s req=%s hit=%s store=%s cands=%d", o.Result, req, b01(o.Hit), o.Stored, ncands)
+	return fmt.Sprintf("%s req=%s hit=%s store=%s", o.Result, req, b01(o.Hit), o.Stored)
 }
